@@ -6,6 +6,7 @@ import (
 	"fmt"
 	"math"
 	"sort"
+	"sync/atomic"
 
 	"verif/core"
 )
@@ -123,11 +124,23 @@ func c06SplitX(c *core.Ctx, cmem, long bool) {
 		warm = GenRun(model, c.R, N, N, N, c.R.IntRange(5, 20), wc)
 		warm.Sets = run.Sets
 	}
+	var busy *MRun
+	if !long && c.R.Bool(0.1) {
+		names := ModelNames()
+		other := names[c.R.Intn(len(names))]
+		for other == model || tableModel(other) {
+			other = names[c.R.Intn(len(names))]
+		}
+		busy = GenRun(other, c.R, 3, 3, 3, 150, 1+c.R.Intn(13))
+	}
 	cmode := ""
 	if cmem {
 		cmode = []string{"guard-after", "guard-before", "malloc"}[c.R.Intn(3)]
 	}
 	c.Begin(map[string]interface{}{"model": model, "run": run, "splits": splits, "warmup_for_hot_states": warm, "segments_on_c_memory": cmode})
+	if c.R.Bool(0.05) {
+		HostileHistory(c, model, run.Sets)
+	}
 	c.Class(fmt.Sprintf("%s/N%d/%s/hot%v/T%d/c%v", model, N, kind, hot, T/20, cmem))
 	if emptyWindow {
 		c.Tag("split:empty-window")
@@ -158,6 +171,20 @@ func c06SplitX(c *core.Ctx, cmem, long bool) {
 	// chained segments
 	bounds := append([]int{0}, splits...)
 	bounds = append(bounds, T)
+	if busy != nil {
+		// a busy process: while the segments are chained, another goroutine keeps running an unrelated model (ow-sim runs
+		// the model types of a generation at the same time; a host application serves several requests)
+		var stop int32
+		done := make(chan struct{})
+		go func() {
+			defer close(done)
+			for atomic.LoadInt32(&stop) == 0 {
+				Execute(busy)
+			}
+		}()
+		defer func() { atomic.StoreInt32(&stop, 1); <-done }()
+		c.Tag("split:while-another-model-runs")
+	}
 	states := clone2(run.States)
 	desc := NewModel(model).Description()
 	chained := make([][][]float64, N)
